@@ -184,6 +184,20 @@ Theorem C08_codecs_refuted :
                 forall2b (fun sec x => v_sec_pts sec x) (f_secs o) (a_secs a) = false.
 Proof. exact codecs_refuted. Qed.
 
+(* rejected m-lines (port 0 without a=bundle-only): answered in place -- C08_count / C08_sections do not
+   depend on the port -- but with a live port (listed finding F31): the answered port is a constant of the
+   mode, never the offered one *)
+Theorem C08_answer_port_constant : forall c s o a,
+  s_remote s = Some o -> create_answer c s = AOk a ->
+  Forall (fun x => a_port x = match c_mode c with MWebRtc => Some default_port | _ => None end) (a_secs a).
+Proof. exact answer_port_constant. Qed.
+
+Theorem C08_rejected_port_refuted :
+  exists c o a, snd (negotiate c st_init o true) = AOk a /\ wfA (f_secs o) /\
+                List.length (a_secs a) = List.length (f_secs o) /\
+                forall2b (fun sec x => v_sec_port sec x) (f_secs o) (a_secs a) = false.
+Proof. exact rejected_port_refuted. Qed.
+
 (* the state invariant: holds for a fresh connection, kept by add_transceiver and by every round *)
 Theorem C08_inv_init : inv_state st_init.
 Proof. exact inv_init. Qed.
